@@ -213,7 +213,9 @@ Definition json_put (acc : list (string * ty)) (kt : string * ty) : list (string
 
 (* [fold_keys]: true = the repaired code (keys visited in sorted order, lower-cased, types of
    keys that differ only in case merged); false = the code before the repair (keys kept as
-   written: repo_patches/case/02-fix-fromjson-keys-case.patch) *)
+   written: repo_patches/case/02-fix-fromjson-keys-case.patch).
+   The resulting Props is a Go map and has no order: the model lists it in key order (the outer
+   [sort_kv]), so that the result is literally the same for two spellings of the keys. *)
 Variable fold_keys : bool.
 
 Fixpoint type_of_json_gen2 (v : jval) : ty :=
@@ -237,7 +239,7 @@ Fixpoint type_of_json_gen2 (v : jval) : ty :=
                     | [] => []
                     | kv :: l' => (fst kv, type_of_json_gen2 (snd kv)) :: go l'
                     end) ps in
-      TObj (if fold_keys then fold_left json_put (sort_kv tys) [] else tys) None
+      TObj (if fold_keys then sort_kv (fold_left json_put (sort_kv tys) []) else tys) None
   end.
 End JSON.
 (* typeOfJSONValue as it is now, and before the repair *)
